@@ -1129,6 +1129,10 @@ func rebase(out, c0, c context) context {
 		}
 		out.element.split = out.element.split || split
 		out.element.attrSplit = out.element.attrSplit || attrSplit
+		if !isInTag(out.state) {
+			// The template has ended the tag, and with it what was known about its attributes.
+			out.element.attrSplit = false
+		}
 		out.element.inherited = c.element.inherited
 	}
 	return out
